@@ -66,6 +66,9 @@ ALPHA["M4"] = [("a", 1.0), ("b", 1.0), ("b", 2.0), ("", 0.0)]
 ALPHA["M6"] = [("a", 1.0), ("a", 2.0), ("b", 1.0), ("b", 2.0), ("b", 3.0), ("", 0.0)]
 DERIVED_NAMES = ["s", "s ", " s"]
 DERIVED_OPS = ["reload", "mask", "unmask", "random-holdout", "balanced-holdout", "reveal", "to-screen", "combine"]
+# control names that are not plain words: regular-expression metacharacters, and names that differ from a drug's name only by case
+# or by what such a metacharacter would match.  (control name, look-alike drug name)
+CONTROL_LOOKALIKES = [("a.c", "abc"), ("ctl+", "ctll"), ("(ctl)", "ctl"), ("c[t]l", "ctl"), ("CTL", "ctl"), ("ctl", "Ctl"), ("ct*", "c"), ("^ctl$", "ctl")]
 CONTROLS = ["", "ctl"]
 NAMES4 = ["", "ctl", "s", "é2"]  # sample / plate names: empty, the control name, ASCII, non-ASCII
 
@@ -81,6 +84,8 @@ BOUNDS = {
         "encoder_1d_direct": "all arrays of length<=4 over 4 strings; all sub-lists of arrays of length<=3 with the superset mapping",
         "supplied_mapping": "S = arity1 rows<=3 over S4, arity2 2 rows over S3, arity1 3 rows over M4 (two names, the second with a dose the first lacks); every non-empty sub-list; both rejection families",
         "control_names": CONTROLS,
+        "control_names_with_lookalikes": "8 (control name, look-alike drug name) pairs - regular-expression metacharacters in the control name, case variants - x all screens "
+                                         "arity1 rows<=2 and arity2 1 row over {control, look-alike, 'z'} x doses {0, 1}",
         "sample_plate_names": NAMES4,
         "memory": "every no-mapping screen also column-major (arity >= 2); read-only and big-endian arrays on the deterministic third of the cases whose digest is divisible by 3",
         "many_ids": "sparse probes with exactly n distinct samples / plates / conditions, n in {127..129, 200, 255..257, 32767..32769, 65535..65537}",
@@ -196,6 +201,8 @@ def plan(tier, seed):
         for c in CONTROLS:
             for lo, hi in _chunks(total, 40):
                 items.append({"k": "derived", "alpha": alpha, "arity": arity, "rows": n, "control": c, "lo": lo, "hi": hi})
+    for ci in range(len(CONTROL_LOOKALIKES)):
+        items.append({"k": "ctlname", "pair": ci, "control": CONTROL_LOOKALIKES[ci][0]})
     for n in (1, 2, 3):
         screens("A9", 1, n)
     for n in (1, 2):
@@ -1012,6 +1019,24 @@ def run_item(item, col, tier):
             run_case(case, col)
             if i == item["lo"]:
                 col.sample(case)
+        return
+
+    if k == "ctlname":
+        control, look = CONTROL_LOOKALIKES[item["pair"]]
+        cells = [(n_, d_) for n_ in (control, look, "z") for d_ in (0.0, 1.0)]
+        first = True
+        for arity, n in ((1, 1), (1, 2), (2, 1)):
+            for i in range(len(cells) ** (arity * n)):
+                d = _digits(i, len(cells), n * arity)
+                spec = {"tn": [[cells[d[r * arity + c]][0] for c in range(arity)] for r in range(n)],
+                        "td": [[cells[d[r * arity + c]][1] for c in range(arity)] for r in range(n)]}
+                spec["sn"], spec["pn"] = _names_for(i, n)
+                case = {"kind": "screen", "control": control, "spec": spec, "mapping": None}
+                col.states += 1
+                run_case(case, col)
+                if first:
+                    col.sample(case)
+                    first = False
         return
 
     if k == "derived":
